@@ -99,7 +99,7 @@ FAC = (" The frame registry (frame_factory.py register / build / build_with_data
 GPS = (" Source-level tie: _parse_gpsd_msg / _parse_version / _parse_devices of server.py are translated from the Python AST on every run "
        "(tools/pysrc2lean_gpsd.py -> Gen/SrcGpsd.lean; subscript / iteration / membership / comparison on a decoded JSON value of any shape are primitives of Model/PyGpsd.lean) "
        "and proved equal to the model's parseChunk on well-formed chunks; 'enabled exactly when a device is selected' is proved on the generated definitions for every chunk, "
-       "ill-formed ones and calls that end in an exception included (Proofs/SrcEquiv/Gpsd; TransferGpsd). The command framing (the header built in setup(), header + hexlify(data) in _transmit(), success exactly on OK / ACK) is read off the source as well (tools/pysrc2lean_gpsdtx.py) and proved equal to the model's (Proofs/SrcEquiv/GpsdTx).")
+       "ill-formed ones and calls that end in an exception included (Proofs/SrcEquiv/Gpsd; TransferGpsd). The command framing (the header built in setup(), header + hexlify(data) in _transmit(), success exactly on OK / ACK) is read off the source as well (tools/pysrc2lean_gpsdtx.py) and proved equal to the model's (Proofs/SrcEquiv/GpsdTx); TransferGpsdTx restates for the generated definitions that the frame bytes are recovered from what follows the header, the command's length, and that success is reported exactly on OK / ACK.")
 SRC = {'C20': GPS, 'C19': RND + STR, 'C17': HLP + BLK, 'C07': TYP + BLK + FLD, 'C08': TYP + VGT + BLK + FLD, 'C04': SRV + FAC, 'C05': SRV, 'C06': SRV + FAC, 'C10': SRV + FAC, 'C12': SRV + TTY, 'C13': CFG, 'C14': CFG + VGT + VST,
        'C01': PARSE, 'C02': PARSE, 'C03': PARSE, 'C09': PARSE, 'C11': PARSE, 'C15': PARSE, 'C16': PARSE, 'C18': PARSE + TTY}
 SRCTECH = ' + source-level translation (Python AST -> Lean) proved equal to the model'
